@@ -1,49 +1,72 @@
 """C05 — Interface + buffered communication move each value to exactly its matches."""
 
+import os
+
+from translators import tr_c05
+
 PID = "C05"
 CLAIM = True
-MANIFEST_TEXT = ("21 Lean 4 theorems (lean/DuneVerif/Props/C05.lean) about a message-level model of Interface::build and "
-                 "BufferedCommunicator (two passes count/add of buildInterface with the attribute tests, strip, "
-                 "messageInformation_ layout with start in elements and size in bytes, gather into one buffer, per-neighbour "
-                 "Issend/Irecv, receive buffer written by arriving messages in any order, MPI_Waitany loop with the completion "
-                 "order as a parameter, scatter per message), on top of remote index lists defined as the sorted intersections "
-                 "of the published index sets (what C04 proves for RemoteIndices::rebuild).  For every process count, every "
-                 "decomposition with each global index at most once per set, one or two index sets per process (also mixed, "
-                 "self-communication), ignorePublic on/off, arbitrary source/target attribute predicates, arbitrary "
-                 "sizeof>0 and per-index component counts that agree on shared indices, arbitrary gather/scatter policies, all "
-                 "arrival and completion orders: interface_spec (send/receive list = exactly the own published entries with "
-                 "own attribute in S resp. T that have a published partner with attribute in T resp. S, ascending global "
-                 "index, each once; reserved sizes exactly filled), interface_neighbours (strip), interface_mirror (k-th sent "
-                 "= k-th received global index), slice_layout_disjoint_cover + recv_regions_disjoint (message = slice holding "
-                 "the values gathered for that neighbour; slices tile the buffer; receive regions disjoint and in bounds), "
-                 "forward_calls / forward_exactly_once (the scatter calls on a process are a permutation of the expected calls, "
-                 "which carry pairwise distinct (sender, global index, component) tags), order_irrelevant_calls, "
-                 "forward_copy_spec / forward_add_spec (single sender => target equals source, untouched entries unchanged; "
-                 "commutative associative add => old value plus all senders' values), backward_is_forward_swapped with "
-                 "backward_calls / backward_copy_spec / backward_add_spec, recv_posted_iff_send_posted (receive posted iff "
-                 "send posted, equal byte size, both directions: message matching, hence the Waitany loop gets its "
-                 "numberOfRealRecvRequests completions), reuse (a communicator carries no state between calls), datatype_calls / "
-                 "datatype_copy_spec (the index lists behind DatatypeCommunicator's MPI datatypes are the unstripped interface "
-                 "lists; moving send type into receive type neighbour by neighbour is exactly the expected calls).  The model is "
-                 "run against the real RemoteIndices::rebuild + Interface::build + BufferedCommunicator (and "
-                 "DatatypeCommunicator, Selection/UncachedSelection, all enumset.hh set classes) under mpirun -np 1..4 (quick) / "
-                 "1..8 (thorough) with PMPI-permuted MPI_Waitany order; the harness oracle recomputes interface lists, the "
-                 "multiset of scatter calls seen by a recording policy and the final container contents from the property's "
-                 "definition.")
-MANIFEST_NOTE = ("Trusted: Lean kernel (+propext/Classical.choice/Quot.sound), the hand-written model's fidelity "
-                 "(differential runs only, bounded: P<=8, <=12 global indices per case, <=3 components), harness oracle, "
-                 "g++/ASan/UBSan, OpenMPI (reliable, pairwise FIFO, a posted synchronous send and the matching posted receive "
-                 "complete).  The remote index lists are taken as specified (C04 proves that specification for rebuild); "
-                 "hypotheses: every global index at most once per index set and process, local indices distinct per set "
-                 "(generator), component counts equal on both sides of a shared index.  Copy policy with several senders to one "
-                 "entry is order dependent by nature: such entries are only required to hold one of the sent values "
-                 "(printed as *).  DatatypeCommunicator: the index lists behind the MPI datatypes are modelled and the final "
-                 "containers compared (copy, non-overlapping receives only); MPI_Type_create_hindexed, displacement "
-                 "arithmetic and persistent requests are exercised, not modelled.  Termination is proved at the message "
-                 "level (matching of posted operations), liveness of MPI itself is assumed; hangs of the real code are "
-                 "detected by a per-case alarm.")
-TECHNIQUE = "Lean 4 proof over a message-level model of Interface/BufferedCommunicator + differential correspondence under MPI with PMPI schedule steering and a definition-level oracle"
-TRANSLATORS = []
+MANIFEST_TEXT = ("37 Lean 4 theorems (lean/DuneVerif/Props/C05.lean) about a message-level model of Interface::build and "
+                 "BufferedCommunicator (two passes count/add of buildInterface with the attribute tests REGENERATED from "
+                 "interface.hh on every run, strip, messageInformation_ layout with start in elements and size in bytes, gather "
+                 "into one buffer, per-neighbour Issend/Irecv, receive buffer written by arriving messages in any order on top "
+                 "of whatever it held before, MPI_Waitany loop with the completion order as a parameter, scatter per message, "
+                 "buffers persisting from one communication to the next, free()/build() again with std::map::insert "
+                 "semantics), on top of remote index lists defined as the sorted intersections of the published index sets "
+                 "(what C04 proves for RemoteIndices::rebuild).  For every process count, every decomposition with each "
+                 "global index at most once per set, one or two index sets per process (also mixed, self-communication), "
+                 "ignorePublic on/off, arbitrary source/target attribute predicates, arbitrary sizeof>0 and per-index "
+                 "component counts that agree on shared indices, arbitrary gather/scatter policies, all arrival and "
+                 "completion orders: interface_spec (needs only the index-set hypothesis; send/receive list = exactly the own "
+                 "published entries with own attribute in S resp. T that have a published partner with attribute in T resp. S, "
+                 "ascending global index, each once; reserved sizes exactly filled), interface_neighbours (strip), "
+                 "interface_mirror (k-th sent = k-th received global index), slice_layout_disjoint_cover + "
+                 "recv_regions_disjoint, forward_calls / forward_exactly_once (the scatter calls on a process are a "
+                 "permutation of the expected calls, which carry pairwise distinct (sender, global index, component) tags) with "
+                 "expected_iff (a tagged call is expected iff sender and receiver hold published entries for that global index "
+                 "with attributes in S resp. T, and it carries the value gathered at the one to the local index of the other: "
+                 "the delivery claim by definition, not by list position), order_irrelevant_calls, forward_copy_spec / "
+                 "forward_add_spec, copy_some_sender (copy policy with several senders: one of the sent values), "
+                 "backward_is_forward_swapped with backward_calls / backward_copy_spec / backward_add_spec, "
+                 "stale_buffer_irrelevant / calls_any_buffer (what the receive buffer held before never reaches a scatter), "
+                 "history_bufOK / history_calls / history_step_is_worldRound (induction over ALL histories of forward/backward "
+                 "calls on one communicator, any schedules, any initial buffer contents: each communication delivers exactly "
+                 "the values present before it), rebuild_is_fresh (build on a used communicator object = fresh build), "
+                 "recv_posted_iff_send_posted + comm_progress / comm_measure (termination: in a transition system of the "
+                 "processes' phases no state is a deadlock and every move decreases a measure <= 2P), reuse, datatype_calls / "
+                 "datatype_copy_spec(_backward), interface_tests_regenerated / attrsets_spec / setExpr_spec / attrset_tables "
+                 "(the attribute tests of buildInterface and the contains functions of all six enumset.hh classes, as "
+                 "REGENERATED from the source, have the documented meaning; every nesting of the classes denotes the right "
+                 "set).  The model is run against the real RemoteIndices::rebuild + Interface::build/free + "
+                 "BufferedCommunicator (build, forward/backward histories of up to 8 calls, free()+build and build-again life "
+                 "cycles with other attribute sets, recording and stock CopyGatherScatter policies) and DatatypeCommunicator, "
+                 "Selection/UncachedSelection, all enumset.hh set classes incl. nested Combine/NegateSet<Combine>/combine() "
+                 "under mpirun -np 1..4 (quick) / 1..8 (thorough) with PMPI-permuted MPI_Waitany order; the harness oracle "
+                 "recomputes interface lists, the multiset of scatter calls seen by a recording policy and the final container "
+                 "contents from the property's definition.")
+MANIFEST_NOTE = ("Trusted: Lean kernel (+propext/Classical.choice/Quot.sound), tr_c05.py, the hand-written model's fidelity "
+                 "(differential runs only, bounded: P<=8, <=12 global indices per case, <=3 components, <=8 communications "
+                 "and <=3 rebuilds per communicator), harness oracle, g++/ASan/UBSan, OpenMPI (reliable, pairwise FIFO, "
+                 "non-overtaking, a posted synchronous send and the matching posted receive complete).  The remote index lists "
+                 "are taken as specified (C04 proves that specification for rebuild); hypotheses: every global index at most "
+                 "once per index set and process, local indices distinct per set (generator), component counts equal on both "
+                 "sides of a shared index.  Copy policy with several senders to one entry is order dependent by nature: such "
+                 "entries are only required to hold one of the sent values (printed as *; theorem copy_some_sender).  "
+                 "DatatypeCommunicator: the index lists behind the MPI datatypes are modelled and the final containers "
+                 "compared (copy, non-overlapping receives only); MPI_Type_create_hindexed, displacement arithmetic and "
+                 "persistent requests are exercised, not modelled.  Termination is proved at the message level (matching of "
+                 "posted operations, no deadlock state, decreasing measure), liveness of MPI itself is assumed; hangs of the "
+                 "real code are detected by a per-case alarm.  If a refactoring takes buildInterface's attribute tests or an "
+                 "enumset.hh contains body outside the translator's grammar, the translator falls back to its built-in "
+                 "transcription (counted as translator_fallbacks in the evidence) and that item is tied by the differential "
+                 "run only.  Needs fixes/C05_build_twice.patch (BufferedCommunicator::build on a built communicator kept stale "
+                 "message information) and fixes/C05_combine_type.patch (Combine had no member Type: nested/negated Combine did "
+                 "not compile); on a tree without them the check reports these as violations with replays.  Not modelled: "
+                 "CommPolicy<VariableBlockVector<..>> (the class lives in dune-istl), RemoteIndicesStateError of an unsynced "
+                 "RemoteIndices (C04's isSynced), Interface::operator== (compares the argument with itself; not part of the "
+                 "property).")
+TECHNIQUE = "Lean 4 proof over a message-level stateful model of Interface/BufferedCommunicator (induction over histories, deadlock-freedom of a phase transition system) + translator for the attribute tests and enumset.hh + differential correspondence under MPI with PMPI schedule steering and a definition-level oracle"
+TRANSLATORS = [tr_c05.translate]
 HARNESS = dict(
     sources=["mpi_c05.cc", "pmpi_sched.cc"],
     mpi=True,
@@ -53,29 +76,41 @@ RULE = ("cases: random decompositions for P ranks: <=8 (thorough <=12) global in
         "subset of the ranks per index set with random or grid-like (one owner, others overlap/copy) attributes out of 4, "
         "public flags none/all/mostly, local indices permuted with gaps; one index set, two index sets (redistribution, "
         "self-communication) or mixed; ignorePublic on/off; source/target attribute sets as masks realised by every "
-        "enumset.hh class, classical owner->overlap patterns, symmetric, asymmetric, empty, all, or aimed at a shared pair; "
-        "payload long / FieldVector<long,3> (SizeOne) / VariableSize policy with 1..3 components per index; copy or add "
-        "recording policy; BufferedCommunicator (build<Data>(interface) or build(source,target,interface); one or two "
-        "containers) or DatatypeCommunicator; 1-3 forward/backward rounds on one communicator; MPI_Waitany order permuted; "
+        "enumset.hh class (1 in 5 through nested Combine / NegateSet<Combine> / combine()), classical owner->overlap "
+        "patterns, symmetric, asymmetric, empty, all, or aimed at a shared pair; payload long / FieldVector<long,3> (SizeOne) "
+        "/ VariableSize policy with 0..3 components per index; copy or add recording policy or the stock CopyGatherScatter; "
+        "BufferedCommunicator (build<Data>(interface) or build(source,target,interface); one or two containers) or "
+        "DatatypeCommunicator; 1-3 forward/backward calls per build, 30% of the cases with 1-3 further builds of the same "
+        "communicator object for other attribute sets (free()+Interface::free()+build, or build again without free; one "
+        "attribute more or less, swapped, identical or unrelated sets), up to 8 communications; MPI_Waitany order permuted; "
         "distinct = distinct op lines; non-trivial = some interface list is non-empty")
 ASSUMPTIONS = [
-    "the Lean model lean/DuneVerif/Model/C05.lean is hand-written; its fidelity to interface.hh/communicator.hh rests on this differential run (P <= 8)",
+    "the Lean model lean/DuneVerif/Model/C05.lean is hand-written except for the attribute tests of buildInterface and the contains functions of enumset.hh, which tools/translators/tr_c05.py regenerates from the source (fail-soft: outside its grammar the built-in transcription is used and counted in distribution.translator_fallbacks); its fidelity to interface.hh/communicator.hh rests on this differential run (P <= 8)",
     "remote index lists are defined as the specification proved in C04 (rebuild_spec); the harness runs the real RemoteIndices::rebuild",
-    "MPI is trusted: reliable, pairwise FIFO; a posted MPI_Issend and the matching posted MPI_Irecv of the same size complete",
+    "MPI is trusted: reliable, pairwise FIFO, non-overtaking; a posted MPI_Issend and the matching posted MPI_Irecv of the same size complete; consecutive communications on one communicator do not mix (a synchronous send completes only when its receive has started)",
     "theorems assume every global index at most once per index set and process (WF) and equal component counts on both sides of a shared index (SizesByGlobal)",
-    "copy policy with more than one sender to an entry: the property only requires one of the sent values (order dependent); checked as such",
+    "copy policy with more than one sender to an entry: the property only requires one of the sent values (order dependent); proved (copy_some_sender) and checked as such",
     "DatatypeCommunicator: theorems about the index lists behind the datatypes; MPI_Type_create_hindexed/persistent requests are covered by the correspondence run only (copy, cases without overlapping receive buffers)",
+    "needs fixes/C05_build_twice.patch and fixes/C05_combine_type.patch applied to the tree under test",
 ]
-TRUSTED = ["g++/libstdc++, ASan/UBSan, OpenMPI", "harness/mpi_c05.cc (generator, executor, definition-level oracle, recording policy) + harness/pmpi_sched.cc",
+TRUSTED = ["g++/libstdc++, ASan/UBSan, OpenMPI", "translator tools/translators/tr_c05.py",
+           "harness/mpi_c05.cc (generator, executor, definition-level oracle, recording policy) + harness/pmpi_sched.cc",
            "Driver/C05.lean parsing/printing and its open-entry bookkeeping (copy with several senders)"]
+
+
+def _fallbacks():
+    st = tr_c05.status(os.environ.get("VERIF_REPO", "/repo"))
+    return sum(1 for v in st.values() if v is not None)
 
 
 def batches(tier, seed):
     res = []
+    fb = str(_fallbacks())
     if tier == "quick":
         plan = [(1, 400), (2, 900), (3, 900), (4, 900)]
         for (np, n) in plan:
-            res.append(dict(args=["--seed", str(seed * 1000 + np), "--cases", str(n), "--tier", tier, "--case-timeout", "60"],
+            res.append(dict(args=["--seed", str(seed * 1000 + np), "--cases", str(n), "--tier", tier, "--case-timeout", "60"] +
+                            (["--trfallbacks", fb] if np == 1 else []),
                             np=np, tag="np%d" % np, timeout=900))
         # one batch with the PMPI scheduler switched off (plain MPI order)
         res.append(dict(args=["--seed", str(seed * 1000 + 77), "--cases", "400", "--tier", tier, "--sched", "0",
@@ -84,7 +119,8 @@ def batches(tier, seed):
         plan = [(1, 3000), (2, 9000), (3, 9000), (4, 9000), (5, 4000), (6, 2500), (7, 1200), (8, 800)]
         for (np, n) in plan:
             res.append(dict(args=["--seed", str(seed * 1000 + 100 + np), "--cases", str(n), "--tier", tier,
-                                  "--case-timeout", "90"], np=np, tag="np%d" % np, timeout=3000))
+                                  "--case-timeout", "90"] + (["--trfallbacks", fb] if np == 1 else []),
+                            np=np, tag="np%d" % np, timeout=3000))
         res.append(dict(args=["--seed", str(seed * 1000 + 177), "--cases", "3000", "--tier", tier, "--sched", "0"], np=4,
                         tag="np4_nosched", timeout=3000))
     return res
